@@ -1,5 +1,6 @@
 import GcmpyModel.Driver.Util
 import GcmpyModel.Model.MessagePassing
+import GcmpyModel.Model.LabelParse
 open Lean
 namespace Gcmpy.Driver.C17
 open Gcmpy Gcmpy.MessagePassing Gcmpy.Driver
@@ -10,8 +11,16 @@ def parseNet (j : Json) : R Net := do
   let edges ← ea.toList.mapM fun e => do
     let t ← e.getArr?
     let lab := t[2]!
-    let l : Label := { verts := ← fieldAs (List Nat) lab "verts", edges := ← fieldAs (List (Nat × Nat)) lab "edges",
-                       id := ← fieldAs Nat lab "id" }
+    -- a cover label as the graph stores it (a string, read by the model of the mixin's parser) or already parsed
+    let l : Label ← match lab.getStr? with
+      | .ok s =>
+        let cs := s.toList
+        match LabelParse.verticesInMotif cs, LabelParse.edgesInMotif cs, LabelParse.motifID cs with
+        | some vs, some es, some i => pure ({ verts := vs, edges := es, id := i } : Label)
+        | _, _, _ => throw s!"cover label outside the modelled grammar: {s}"
+      | .error _ =>
+        pure ({ verts := ← fieldAs (List Nat) lab "verts", edges := ← fieldAs (List (Nat × Nat)) lab "edges",
+                id := ← fieldAs Nat lab "id" } : Label)
     pure ((← fromJson? (α := Nat) t[0]!), (← fromJson? (α := Nat) t[1]!), l)
   pure { nodes := nodes, edges := edges }
 
@@ -30,5 +39,16 @@ def handle (j : Json) : R Json := do
     let H := finalH net it (φs.headD 0) (1/2 : Rat)
     pure <| obj [("values", Json.arr vals.toArray),
                  ("H", Json.arr (H.map fun ((v, m), x) => Json.arr #[toJson v, toJson m, ratJson x]).toArray)]
+
+/-- {"op":"c17_labels","labels":[str..]} → per label the four accessors of the mixin (null = the call raises) -/
+def labels (j : Json) : R Json := do
+  let ls ← fieldAs (List String) j "labels"
+  let optJ {α : Type} (f : α → Json) : Option α → Json := fun o => match o with | none => Json.null | some x => f x
+  pure <| obj [("parsed", Json.arr (ls.map fun s =>
+    let cs := s.toList
+    obj [("key", optJ toJson (LabelParse.motifTopology cs)), ("id", optJ toJson (LabelParse.motifID cs)),
+         ("verts", optJ toJson (LabelParse.verticesInMotif cs)),
+         ("edges", optJ (fun es => Json.arr (es.toArray.map fun e => Json.arr #[toJson e.1, toJson e.2]))
+                     (LabelParse.edgesInMotif cs))]).toArray)]
 
 end Gcmpy.Driver.C17
